@@ -5,7 +5,6 @@ package gobinlog_test
 // goroutines, socket close) as ndjson lines in the vocabulary of DESIGN.md Appendix B.
 
 import (
-	"bytes"
 	"context"
 	"encoding/json"
 	"errors"
@@ -34,7 +33,7 @@ func (nopLogger) Printf(string, ...interface{}) {}
 func init() { gobinlog.SetLogger(nopLogger{}) }
 
 // waitBound is "bounded time" (observed latencies are milliseconds).
-var waitBound = 10 * time.Second
+var waitBound = 5 * time.Second
 
 // ---- trace recorder ---------------------------------------------------------------------
 
@@ -45,7 +44,11 @@ type Recorder struct {
 }
 
 func NewRecorder(path string) (*Recorder, error) {
-	f, err := os.Create(path)
+	flag := os.O_CREATE | os.O_WRONLY | os.O_TRUNC
+	if os.Getenv("VERIF_APPEND") != "" {
+		flag = os.O_CREATE | os.O_WRONLY | os.O_APPEND
+	}
+	f, err := os.OpenFile(path, flag, 0644)
 	if err != nil {
 		return nil, err
 	}
@@ -180,40 +183,56 @@ func goid() int {
 	return -1
 }
 
-// libraryGoroutines returns the stacks of goroutines that have a frame of the library or of its
-// driver, excluding the calling goroutine.
-func libraryGoroutines() []string {
-	buf := make([]byte, 1<<20)
+// libraryGoroutines returns, by goroutine id, the goroutines that have a frame of the library or of its
+// driver (function names only), excluding the calling goroutine and harness goroutines.
+func libraryGoroutines() map[int]string {
+	buf := make([]byte, 1<<21)
 	n := runtime.Stack(buf, true)
-	var out []string
-	me := fmt.Sprintf("goroutine %d ", goid())
+	out := map[int]string{}
+	me := goid()
 	for _, g := range strings.Split(string(buf[:n]), "\n\n") {
-		if strings.HasPrefix(g, me) {
+		f := strings.Fields(g)
+		if len(f) < 2 || f[0] != "goroutine" {
 			continue
 		}
-		if strings.Contains(g, "Breeze0806/gobinlog.") || strings.Contains(g, "Breeze0806/mysql.") {
-			if strings.Contains(g, "gobinlog_test.") && !strings.Contains(g, "Breeze0806/gobinlog.(*") {
-				continue // harness goroutine (the harness package path contains the library path)
-			}
-			// keep the function names only
-			var fns []string
-			for _, ln := range strings.Split(g, "\n") {
-				if strings.HasPrefix(ln, "github.com/Breeze0806/") {
-					fns = append(fns, strings.SplitN(ln, "(0x", 2)[0])
+		id, _ := strconv.Atoi(f[1])
+		if id == me {
+			continue
+		}
+		var fns []string
+		lib := false
+		for _, ln := range strings.Split(g, "\n") {
+			if strings.HasPrefix(ln, "github.com/Breeze0806/") {
+				fn := strings.SplitN(ln, "(0x", 2)[0]
+				fn = strings.TrimSuffix(fn, "(...)")
+				fns = append(fns, fn)
+				if !strings.Contains(fn, "gobinlog_test.") {
+					lib = true
 				}
 			}
-			out = append(out, strings.Join(fns, " < "))
+		}
+		// a goroutine is the library's when its entry function (last frame) belongs to the library or its driver:
+		// harness goroutines that are merely inside a library call (Stream, Error) are the caller's.
+		if lib && len(fns) > 0 && !strings.Contains(fns[len(fns)-1], "gobinlog_test.") {
+			out[id] = strings.Join(fns, " < ")
 		}
 	}
 	return out
 }
 
-func waitNoLibraryGoroutines(d time.Duration) []string {
+// waitNoNewLibraryGoroutines waits (bounded) until no library goroutine other than those in base remains.
+func waitNoNewLibraryGoroutines(base map[int]string, d time.Duration) []string {
 	deadline := time.Now().Add(d)
 	for {
 		gs := libraryGoroutines()
-		if len(gs) == 0 || time.Now().After(deadline) {
-			return gs
+		var left []string
+		for id, desc := range gs {
+			if _, old := base[id]; !old {
+				left = append(left, desc)
+			}
+		}
+		if len(left) == 0 || time.Now().After(deadline) {
+			return left
 		}
 		time.Sleep(2 * time.Millisecond)
 	}
@@ -240,8 +259,10 @@ type AttemptPlan struct {
 	CancelAtTx   int    // cancel the context from inside the handler of transaction index k (before it returns); -1
 	CancelAtPkt  int    // cancel when packet index i has been sent; -1
 	HandlerBlock int    // tx index whose handler blocks until released by the stop cause; -1
+	HandlerBlockMs int  // if > 0 the blocked handler resumes by itself after this many milliseconds
 	Scribble     bool   // handler overwrites every delivered byte slice after snapshotting
 	Dead         bool   // connect to a dead address (no listener)
+	CancelAfterReturn bool // the caller cancels its context after Stream returned, before calling Error()
 }
 
 func defaultAttempt() AttemptPlan {
@@ -251,7 +272,7 @@ func defaultAttempt() AttemptPlan {
 func (a AttemptPlan) J() M {
 	m := M{"pacing": a.Pacing, "end": a.End, "connfault": orNone(a.ConnFault), "handlerErrAt": a.HandlerErrAt,
 		"mapperFault": orNone(a.MapperFault), "cancelAtTx": a.CancelAtTx, "cancelAtPkt": a.CancelAtPkt,
-		"handlerBlock": a.HandlerBlock, "scribble": a.Scribble, "dead": a.Dead}
+		"handlerBlock": a.HandlerBlock, "scribble": a.Scribble, "dead": a.Dead, "cancelAfterReturn": a.CancelAfterReturn}
 	if a.Fault != nil {
 		m["fault"] = M{"kind": a.Fault.Kind, "at": a.Fault.At, "code": int(a.Fault.Code), "msg": B(a.Fault.Msg)}
 	} else {
@@ -282,6 +303,8 @@ type StreamScenario struct {
 	Attempts []AttemptPlan
 	Resume   bool // C03: afterwards, one extra stream per delivered transaction
 	Note     string
+	// SetPosBefore: explicit SetBinlogPosition calls made before the given attempt index
+	SetPosBefore map[int]Pos
 }
 
 func cellsJ(cs []Cell, t *Table) []M {
@@ -393,6 +416,8 @@ type runState struct {
 	// delivered transactions over the whole scenario (for rereads / resume)
 	kept []*gobinlog.Transaction
 	snap []M
+	// where the harness believes the streamer stands (only used to describe injected faults; set from the scenario start)
+	streamerPosGuess Pos
 }
 
 func errJ(err error) M {
@@ -531,19 +556,28 @@ func (rs *runState) runAttempt(att int, a AttemptPlan, dsnOverride string) {
 		pj["nested"] = inHandler
 		pj["sent"] = sentSoFar
 		pj["gk"] = len(rs.kept)
+		pat := -1
+		if a.Scribble {
+			pat = 0x80 + len(rs.kept)%100
+		}
+		pj["pat"] = pat
 		rec.Emit(pj)
 		rs.kept = append(rs.kept, t)
 		rs.snap = append(rs.snap, projTx(t))
 		if a.Scribble {
-			scribbleTx(t, byte(0xA0+len(rs.kept)%16))
+			scribbleTx(t, byte(pat))
 		}
 		if a.CancelAtTx == k {
 			doCancel("tx")
 		}
 		if a.HandlerBlock == k {
+			lim := waitBound
+			if a.HandlerBlockMs > 0 {
+				lim = time.Duration(a.HandlerBlockMs) * time.Millisecond
+			}
 			select {
 			case <-handlerRelease:
-			case <-time.After(waitBound):
+			case <-time.After(lim):
 			}
 		}
 		var err error
@@ -559,7 +593,13 @@ func (rs *runState) runAttempt(att int, a AttemptPlan, dsnOverride string) {
 		return err
 	}
 
-	rec.Emit(M{"ev": "attempt", "att": att, "plan": a.J()})
+	nbefore := -1
+	if a.Inject != nil && len(sc.Log.Files) > 0 {
+		cur := rs.streamerPosGuess
+		nbefore = nCommitsBefore(sc.Log, cur, a.Inject.At)
+	}
+	rec.Emit(M{"ev": "attempt", "att": att, "plan": a.J(), "nbefore": nbefore})
+	baseG := libraryGoroutines() // goroutines leaked by earlier attempts are not charged to this one
 	t0 := time.Now()
 	var err error
 	done := make(chan struct{})
@@ -570,7 +610,7 @@ func (rs *runState) runAttempt(att int, a AttemptPlan, dsnOverride string) {
 		close(done)
 	}()
 	// "cancel" end: cancel once the master has sent everything and the streamer went quiet.
-	if a.End == "cancel" && connRec != nil {
+	if (a.End == "cancel" || a.End == "idle") && connRec != nil {
 		go func() {
 			deadline := time.Now().Add(waitBound)
 			for time.Now().Before(deadline) {
@@ -588,14 +628,21 @@ func (rs *runState) runAttempt(att int, a AttemptPlan, dsnOverride string) {
 				}
 				time.Sleep(time.Millisecond)
 			}
-			time.Sleep(30 * time.Millisecond)
+			if a.End == "idle" {
+				// the planned cancel point may not exist in this attempt (fewer packets / transactions are left
+				// after earlier attempts): end the idle stream by cancellation anyway
+				time.Sleep(100 * time.Millisecond)
+			} else {
+				time.Sleep(30 * time.Millisecond)
+			}
 			doCancel("end")
+			release()
 		}()
 	}
 	returned := true
 	select {
 	case <-done:
-	case <-time.After(waitBound + 5*time.Second):
+	case <-time.After(2 * waitBound):
 		returned = false
 	}
 	el := time.Since(t0)
@@ -613,6 +660,9 @@ func (rs *runState) runAttempt(att int, a AttemptPlan, dsnOverride string) {
 	}
 	release()
 	tRet := time.Now()
+	if a.CancelAfterReturn {
+		doCancel("after-return")
+	}
 
 	// Error(): must return, whatever happened.
 	for call := 1; call <= 2; call++ {
@@ -656,7 +706,7 @@ func (rs *runState) runAttempt(att int, a AttemptPlan, dsnOverride string) {
 		rec.Emit(M{"ev": "sock", "att": att, "peerClosed": closed, "masterEnded": masterEnded, "sent": sent,
 			"ms": int(time.Since(tRet) / time.Millisecond)})
 	}
-	left := waitNoLibraryGoroutines(waitBound)
+	left := waitNoNewLibraryGoroutines(baseG, waitBound)
 	if left == nil {
 		left = []string{}
 	}
@@ -673,18 +723,25 @@ func RunStreamScenario(rec *Recorder, sc *StreamScenario) {
 	if only := os.Getenv("VERIF_ONLY"); only != "" && only != strconv.Itoa(sc.ID) {
 		return
 	}
+	if from, _ := strconv.Atoi(os.Getenv("VERIF_FROM")); from > sc.ID {
+		return
+	}
 	m, err := NewMaster()
 	if err != nil {
 		panic(err)
 	}
 	defer m.Close()
-	rs := &runState{rec: rec, master: m, sc: sc}
+	rs := &runState{rec: rec, master: m, sc: sc, streamerPosGuess: sc.Start}
 	rs.mapper = &vfMapper{tables: sc.Log.Tables(), rec: rec}
 	rec.Emit(sc.J(false))
 	st, _ := gobinlog.NewStreamer(m.DSN(), sc.ServerID, rs.mapper)
 	st.SetBinlogPosition(gobinlog.Position{Filename: sc.Start.File, Offset: int64(sc.Start.Off)})
 	rs.streamer = st
 	for i, a := range sc.Attempts {
+		if p, ok := sc.SetPosBefore[i]; ok {
+			st.SetBinlogPosition(gobinlog.Position{Filename: p.File, Offset: int64(p.Off)})
+			rec.Emit(M{"ev": "setpos", "att": i, "pos": M{"file": B(p.File), "off": u32s(p.Off)}})
+		}
 		rs.runAttempt(i, a, "")
 	}
 	// re-read every delivered transaction after all stream activity ended (C08)
@@ -692,7 +749,6 @@ func RunStreamScenario(rec *Recorder, sc *StreamScenario) {
 		pj := projTx(t)
 		pj["ev"] = "reread"
 		pj["gk"] = k
-		pj["same"] = jsonEq(pj, rs.snap[k])
 		rec.Emit(pj)
 	}
 	if sc.Resume {
@@ -709,16 +765,3 @@ func RunStreamScenario(rec *Recorder, sc *StreamScenario) {
 	rec.Emit(M{"ev": "end", "id": sc.ID})
 }
 
-func jsonEq(a, b M) bool {
-	strip := func(m M) []byte {
-		c := M{}
-		for k, v := range m {
-			if k == "now" || k == "next" || k == "ts" || k == "evs" {
-				c[k] = v
-			}
-		}
-		d, _ := json.Marshal(c)
-		return d
-	}
-	return bytes.Equal(strip(a), strip(b))
-}
